@@ -727,6 +727,37 @@ fn find_utf8() {
             }
         }}
     }}
+    // C12 second sentence: no answer changes with the milestone interval - the known selections, the positions where
+    // selections begin or end, and a resource copied (with its selections) into a second store
+    let text = "aé€𝄞aé€𝄞aé€𝄞";
+    let pool: [(usize, usize); 5] = [(2, 6), (1, 3), (4, 8), (5, 6), (1, 5)];
+    let mut reference: Option<String> = None;
+    for interval in [0usize, 1, 2, 3, 7, 100] {
+        let mut store = AnnotationStore::new(Config::default().with_milestone_interval(interval))
+            .with_resource(TextResourceBuilder::new().with_id("r").with_text(text)).unwrap();
+        for (b, e) in pool { store.annotate(AnnotationBuilder::new().with_target(SelectorBuilder::textselector("r", Offset::simple(b, e))).with_data("d", "k", "v")).unwrap(); }
+        let original: &TextResource = store.get("r").unwrap();
+        let copy = original.clone().unbind();
+        let mut store2 = AnnotationStore::new(Config::default().with_milestone_interval(interval));
+        store2.insert(copy).unwrap();
+        let copied: &TextResource = store2.get("r").unwrap();
+        let mut answers: Vec<String> = Vec::new();
+        for (name, r) in [("built", original), ("copied", copied)] {
+            let fwd: Vec<(usize, usize)> = r.iter().map(|t| (t.begin(), t.end())).collect();
+            let bwd: Vec<(usize, usize)> = r.iter().rev().map(|t| (t.begin(), t.end())).collect();
+            let known: Vec<bool> = pool.iter().map(|(b, e)| matches!(r.known_textselection(&Offset::simple(*b, *e)), Ok(Some(_)))).collect();
+            let both: Vec<usize> = r.positions(PositionMode::Both).copied().collect();
+            let begins: Vec<usize> = r.positions(PositionMode::Begin).copied().collect();
+            let ends: Vec<usize> = r.positions(PositionMode::End).copied().collect();
+            let inrange: Vec<usize> = r.positions_in_range(PositionMode::Both, 2, 9).copied().collect();
+            answers.push(format!("{}: iter={:?} rev={:?} known={:?} both={:?} begin={:?} end={:?} in2..9={:?}", name, fwd, bwd, known, both, begins, ends, inrange));
+        }
+        // the copy answers as the original (same selections), and every interval answers as interval 0
+        let a = answers[0].trim_start_matches("built: ").to_string();
+        let b = answers[1].trim_start_matches("copied: ").to_string();
+        if a != b { println!("WITNESS {{\"clause\":\"create_milestones/existing_entries_untouched\",\"text\":{:?},\"milestone_interval\":{},\"original\":{:?},\"after_insertion_into_a_second_store\":{:?}}}", text, interval, a, b); return; }
+        match &reference { None => reference = Some(a), Some(r0) => if *r0 != a { println!("WITNESS {{\"clause\":\"milestone_interval changes an answer\",\"text\":{:?},\"milestone_interval\":{},\"with_interval_0\":{:?},\"got\":{:?}}}", text, interval, r0, a); return; } }
+    }
     println!("NO-WITNESS find_utf8");
 }
 
